@@ -89,6 +89,10 @@ func (bc *BaseContract) createCCTransferFrom(
 	token string,
 	amount *big.Int,
 ) (string, error) {
+	if !cctransfer.IsValidID(idTransfer) {
+		return "", cctransfer.ErrInvalidIDTransfer
+	}
+
 	if strings.EqualFold(bc.ContractConfig().GetSymbol(), to) {
 		return "", cctransfer.ErrInvalidChannel
 	}
@@ -158,6 +162,10 @@ func (bc *BaseContract) TxCreateCCTransferTo(dataIn string) (string, error) {
 	}
 
 	// see if it's already there.
+	if !cctransfer.IsValidID(tr.GetId()) {
+		return "", cctransfer.ErrInvalidIDTransfer
+	}
+
 	if _, err := cctransfer.LoadCCToTransfer(bc.GetStub(), tr.GetId()); err == nil {
 		return "", cctransfer.ErrIDTransferExist
 	}
